@@ -338,7 +338,7 @@ func TestC15Race(t *testing.T) {
 						continue
 					}
 					want, info, ok := c15Expect(name, masked)
-					if ok && !info.Variable && !(c.IsKnown("C15|lookup|width|"+name)) && hdrOf(f) != want {
+					if ok && !info.Variable && !(c.IsKnown("C15|lookup|width|" + name)) && hdrOf(f) != want {
 						mu.Lock()
 						bad = append(bad, fmt.Sprintf("goroutine %d: lookup(%s,%v) = %+v want %+v", gi, name, masked, hdrOf(f), want))
 						mu.Unlock()
